@@ -34,13 +34,6 @@ func sameBytes(id string, a, b []byte) {
 	}
 }
 
-type verifRandSrc struct{}
-
-func (verifRandSrc) Read(p []byte) (int, error) {
-	copy(p, verifNondetBytes("rand", len(p)))
-	return len(p), nil
-}
-
 // verifPConn: packet transport stub. Incoming datagrams are queued by the harness; every WriteTo is logged.
 type verifPConn struct {
 	in     [][]byte
